@@ -342,6 +342,11 @@ fn apply_one_module<'a>(m: &mut wirm::Module<'a>, inj: &Inj, ops: Vec<O<'static>
 
 /// Same plan through the component-level API (the module is wrapped into a component).
 pub fn apply_component(base: &[u8], plan: &[Inj], rng: &mut Rng) -> Result<(Vec<Applied>, Result<Vec<u8>, PanicInfo>, Vec<String>), String> {
+    apply_component_n(base, plan, rng, 1)
+}
+
+/// Same; the component is encoded `n` times and the module of the LAST encoding is returned.
+pub fn apply_component_n(base: &[u8], plan: &[Inj], rng: &mut Rng, n: usize) -> Result<(Vec<Applied>, Result<Vec<u8>, PanicInfo>, Vec<String>), String> {
     let comp_bytes = gencomp::wrap_modules(&[base.to_vec()], rng);
     let mut comp = match catch(|| wirm::Component::parse(&comp_bytes, true)) {
         Ok(Ok(c)) => c,
@@ -350,7 +355,12 @@ pub fn apply_component(base: &[u8], plan: &[Inj], rng: &mut Rng) -> Result<(Vec<
     };
     let mut status = vec![];
     for inj in plan {
-        let ops = probe_ops_for(inj);
+        let mut ops: Vec<O<'_>> = probe_ops_for(inj);
+        if inj.probe == Probe::HostThenOrig && matches!(inj.path, Path::Iter | Path::IterInjectAt) {
+            // neutral alternate: the probe followed by the instruction it replaces (the module-level paths do this in apply_one_module)
+            let orig = comp.modules[0].functions.get(FunctionID(inj.func)).unwrap_local().body.instructions[inj.at].op.clone();
+            ops.push(orig);
+        }
         let r = catch(|| {
             match inj.path {
                 Path::Iter | Path::IterInjectAt => {
@@ -380,7 +390,7 @@ pub fn apply_component(base: &[u8], plan: &[Inj], rng: &mut Rng) -> Result<(Vec<
                 }
                 _ => {
                     let m = &mut comp.modules[0];
-                    apply_one_module(m, inj, ops);
+                    apply_one_module(m, inj, probe_ops_for(inj));
                 }
             }
         });
@@ -392,8 +402,15 @@ pub fn apply_component(base: &[u8], plan: &[Inj], rng: &mut Rng) -> Result<(Vec<
     }
     let _ = ModuleID(0);
     let _ = take_logs();
-    let enc = catch(|| comp.encode());
+    let mut enc = catch(|| comp.encode());
     let logs: Vec<String> = take_logs().into_iter().map(|(_, s)| s).collect();
+    for _ in 1..n.max(1) {
+        if enc.is_err() {
+            break;
+        }
+        enc = catch(|| comp.encode());
+    }
+    let _ = take_logs();
     let enc = match enc {
         Ok(b) => match gencomp::extract_modules(&b) {
             Ok(mut v) if v.len() == 1 => Ok(v.remove(0)),
